@@ -44,6 +44,20 @@ func Main() {
 			os.Exit(3)
 		}
 		h(os.Args[3:])
+	case "describe":
+		ids := []string{}
+		for id := range engines {
+			ids = append(ids, id)
+		}
+		sort.Strings(ids)
+		for _, id := range ids {
+			e := engines[id]
+			fmt.Printf("### %s (%s)\n\n%s\n\n", id, e.Level, e.Rule)
+			for _, a := range e.Assumptions {
+				fmt.Printf("* assumes: %s\n", a)
+			}
+			fmt.Println()
+		}
 	case "list":
 		ids := []string{}
 		for id := range engines {
